@@ -99,17 +99,44 @@ class BufSrc:
                     pass
             return out
 
+        alias = []         # (pointer local id, variable id it points into): a store through the first is a store into the second
+
+        def ptr_target(e):
+            """variable a pointer-valued expression points into (`buf`, `buf + k`, `&buf[k]`), None for anything else"""
+            e = strip(e)
+            while e is not None and e.get("k") == "cast":
+                e = strip(e["e"])
+            if e is None:
+                return None
+            if e.get("k") == "var":
+                return e if "*" in (e.get("t") or "") or "[" in (e.get("t") or "") else None
+            if e.get("k") == "bin" and e["op"] in ("+", "-"):
+                return ptr_target(e["l"])
+            if e.get("k") == "un" and e["op"] == "&":
+                return base_var(e["e"])
+            return None
+
+        def note_alias(dstvar, rhs):
+            if dstvar is None or "id" not in dstvar or "*" not in (dstvar.get("t") or ""):
+                return
+            tv = ptr_target(rhs)
+            if tv is not None and "id" in tv and tv["id"] != dstvar["id"]:
+                alias.append((dstvar["id"], tv["id"]))
+
         for b, ln, n in fn.nodes():
             k = n.get("k")
             if k == "decl" and "init" in n:
                 v = n.get("var") or {}
                 if "id" in v:
                     add(v["id"], roots_of(n["init"]))
+                    note_alias(v, n["init"])
             elif k == "bin" and n["op"] in ASSIGN_OPS:
                 bv = base_var(n["l"])
                 if bv is not None and "id" in bv:
                     add(bv["id"], roots_of(n["r"]))
                     # index expressions do not flow into the buffer
+                    if n["op"] == "=" and (strip(n["l"]) or {}).get("k") == "var":
+                        note_alias(strip(n["l"]), n["r"])
             elif k == "call":
                 name = n.get("fn")
                 args = n.get("a", [])
@@ -141,6 +168,11 @@ class BufSrc:
         changed = True
         while changed:
             changed = False
+            for (pv, tv) in alias:
+                extra = src.get(pv, set()) - src.setdefault(tv, set()) - {("V", tv)}
+                if extra:
+                    src[tv] |= extra
+                    changed = True
             for vid, rs in src.items():
                 for r in list(rs):
                     if r[0] == "V" and r[1] != vid:
